@@ -29,7 +29,10 @@ RULE = ("scenarios: <=3 entities x <=2 attributes, some existing before the trig
         "and or not, over values, attributes, .old); histories of <=12 create / change value / change attribute / "
         "re-set same / delete operations in bursts of 1-6; each scenario under both subsystems; plus runs delayed by "
         "state_hold in {0, 0.5, 2 s} with kwargs= of plain names and of names colliding with var_name / value / "
-        "old_value / trigger_type (the keyword arguments of the delayed run are judged).  Non-trivial = at "
+        "old_value / trigger_type (the keyword arguments of the delayed run are judged), alone or next to a PLAIN trigger "
+        "on the same entity (stacked before / after it, or on a second function: every run's full kwargs per function); "
+        "multi-life histories (all trigger functions removed and loaded again, changes in the gap, then a burst over both "
+        "variables of the expression); kwargs=None spelled out.  Non-trivial = at "
         "least one event delivered to some decorator; distinct by payload.")
 ASSUMPTIONS = [
     "Home Assistant delivers state_changed to pyscript's listener synchronously, in firing order, and fires no event "
